@@ -1039,6 +1039,8 @@ def child_env(hashseed):
     env = {"PATH": os.environ.get("PATH", "/usr/bin:/bin"), "HOME": os.environ.get("HOME", "/root"),
            "PYTHONHASHSEED": str(hashseed), "PYTHONDONTWRITEBYTECODE": "1", "LC_ALL": "C.UTF-8",
            "PYTHONPATH": os.pathsep.join([os.path.join(REPO, "python"), REPO]), "FOO": "/launch/foo", "BAR": "bar"}
+    if os.environ.get("LOGNAME"):
+        env["LOGNAME"] = os.environ["LOGNAME"]      # the run's own shadow-directory root (see ./check)
     return env
 
 
